@@ -1,6 +1,8 @@
 /-
   Y0.Model.TrDsl — the normalising constructors of src/y0/dsl.py and the canonicaliser of
-  src/y0/mutate/canonicalize_expr.py that the transport algorithms call, translated branch for branch:
+  src/y0/mutate/canonicalize_expr.py that the transport algorithms call, translated branch for branch (the code AFTER
+  the `fix:` commits of the `expr` family that are merged into the tree under test: total sort keys, `Sum.simplify`
+  superset branch, the three `canonicalize` repairs):
 
     Python                                    model
     ----------------------------------------  ---------------------------
@@ -188,7 +190,8 @@ def sumSimplify (e : Expr) (ranges : List Var) : Expr :=
     let keys := dict.map (·.1)
     let rs := ranges.map (·.name)
     if seteq' rs keys then .one
-    else if subset' keys rs then .one           -- `Sum.safe(One(), frozenset())`
+    else if subset' keys rs then                -- `Sum.safe(One(), ranges - children)` (after `fix:` ed0f7b2)
+      .sum .one (ranges.filter (fun r => r.name ∉ keys))
     else if subset' rs keys then
       .prob pop (sortVars ((dict.filter (fun p => p.1 ∉ rs)).map (·.2))) []
     else
@@ -315,22 +318,39 @@ def simplifyCast : Expr → Except Err Expr
 
 /-! ### canonicalize -/
 
-/-- `Canonicalizer._sorted`: stable sort by the level of the variable's NAME in the alphabetical ordering of the
-expression's variables, i.e. stable sort by name -/
-def sortByName (vs : List Var) : List Var := ssort (fun a b => a.name < b.name) vs
+/-- `Canonicalizer._sorted`: stable sort by `(ordering_level[name], _variable_total_key(v))` (after `fix:` 78747c0);
+the level of a NAME in the alphabetical ordering of the expression's variables is monotone in the name -/
+def sortByName (vs : List Var) : List Var :=
+  ssort (fun a b => a.name < b.name || (a.name == b.name && Key.lt (varTotalKey a) (varTotalKey b))) vs
+
+mutual
+/-- `_flatten_expressions` (after `fix:` 9d74ada): products that only appear after canonicalising the factors are
+flattened (`_flatten_product` is deep) -/
+def flattenExprs : List Expr → List Expr
+  | [] => []
+  | e :: es => flattenExpr e ++ flattenExprs es
+def flattenExpr : Expr → List Expr
+  | .prod gs => flattenExprs gs
+  | e => [e]
+end
+
+/-- the re-check of the trivial fractions after the division (after `fix:` b6e9cb9) -/
+def postFrac : Expr → Expr
+  | .frac a b => if isOne b then a else if exprEq a b then .one else .frac a b
+  | e => e
 
 mutual
 /-- `Canonicalizer.canonicalize` -/
 def canon : Expr → Except Err Expr
   | .prob pop c p => .ok (.prob pop (sortByName c) (sortByName p))
   | .sum e r => do pure (sumSafe (← canon e) r true)
-  | .prod fs => do pure (productSafe (← canonFlat fs))
+  | .prod fs => do pure (productSafe (flattenExprs (← canonFlat fs)))
   | .frac n d => do
       let n' ← canon n
       let d' ← canon d
       if isOne d' then pure n'
       else if exprEq n' d' then pure .one
-      else truediv n' d'
+      else do pure (postFrac (← truediv n' d'))
   | .one => .ok .one
   | .zero => .ok .zero
   | .q .. => .error (.internal "TypeError")
